@@ -26,13 +26,19 @@ def _summary(out):
 
 
 def norm_verr(v):
+    """The kind of validation error: file paths, numbers and the path through the page tree removed."""
     v = re.sub(r"^[^:]*: validate \S+: ", "", v)
     v = v.split("\n")[0]
     v = re.sub(r"\d+", "N", v)
     i = v.find("subdict")
     if i >= 0:
         v = v[:i + len("subdict")]
-    return v[:120]
+    i = v.find("wrong type")
+    if i >= 0:
+        v = v[:i + len("wrong type")]
+    segs = [x for x in v.split(": ") if not re.match(
+        r"^(validation error \(obj#:N\)|document catalog|catalog Pages|page tree|kid obj#N|node obj#N( Resources)?|page obj#N|page annotations)$", x)]
+    return ": ".join(segs)[:140]
 
 
 def run(ctx):
